@@ -49,6 +49,17 @@ HINTS = {
          'formatting assumptions (split() versus split(\',\'), %d versus %02d, strip() eating significant characters, case folding); '
          'numpy.where with one versus three arguments; in-place operators (+=, *=) on arrays that alias an input; list multiplication '
          'creating shared rows. Prefer functions on the path between the public API and the anchors that have no direct unit test.',
+    '8': 'Aim at the DEGENERATE MEMBERS of the quantifier, the ones the property explicitly includes but ordinary use rarely meets: an empty '
+         'catalog, a single event, a single cell or a single row / column of cells, a single magnitude bin, one synthetic catalog, one '
+         'simulation, a forecast whose rates are all zero in some row or column, all events in one bin, the first and the last bin / cell / '
+         'record, a value exactly on the first or last edge, a scale factor of 1 or of 0, seed 0, catalog id 0, a file with one record or '
+         'one line, a region with one polygon, zero-length selections after filtering. Make changes that are right for every ordinary member '
+         'and wrong only for one such degenerate member: a shortcut or vectorisation that is valid for n >= 2; numpy.squeeze / ravel / '
+         'atleast_1d / [0] / [-1] / keepdims handling that collapses or mis-shapes a length-1 or length-0 axis; an off-by-one that only '
+         'matters for the last element; a division or logarithm that is only wrong when a count is zero; `if x:` on an array or number that '
+         'may be 0 or empty; min / max / mean / diff / percentile of fewer than two values; range(len(x) - 1) loops; slices x[1:] / x[:-1] that '
+         'become empty; broadcasting that silently works differently when a dimension is 1. Each of the three seeds must break for a '
+         'DIFFERENT degenerate member, and ordinary inputs (several events, several cells, several bins) must keep working exactly.',
 }
 prop = None
 for line in open(os.path.join(HERE, 'properties.jsonl')):
